@@ -185,6 +185,10 @@ def run(ctx, args):
                 ctx.violation(key, what, case)
     offsets = sum(len(c["rows"]) for c in cases if c["kind"] == "off")
     spans = sum(len(c["rows"]) for c in cases if c["kind"] == "span")
+    # the scanner: token offsets and line numbers are where every reported position comes from
+    import lexcheck
+    lex_counts, lex_texts = lexcheck.run_lexer_conformance(ctx, 4 if ctx.tier == "quick" else 5)
+    counts["lexer"] = lex_counts
     multi = sum(1 for c in cases if c["kind"] == "span" for r in c["rows"] if not r["r"]["single"])
     lay = [c for c in cases if c["kind"] == "layout"]
     samples = [{"text": text_of(cases[300]["text"]), "rows": cases[300]["rows"][:4]}, {"source": build_layout(lay[7]), "located": {k: fmt(v) for k, v in lay[7]["located"].items()}}]
@@ -193,7 +197,9 @@ def run(ctx, args):
         rule=f"all texts over {{character, line break}} up to length {mt} x all offsets ({offsets} offset queries, every line start), all texts up to length {ms} x all "
              f"ranges ({spans} ranges, {multi} of them multi-line; round trip proved in TLC), and {len(lay)} layouts of a 55-token program (separators: space/tab, "
              f"line break, blank line, mixed, at {vg} varied gaps incl. leading white space) with 17 identifier ranges (two of them operands of ++ / --), 8 composite hulls (a while loop, a global written after the function) and the redeclaration "
-             "diagnostic each. distinct_nontrivial = multi-line ranges + layouts.",
+             f"diagnostic each. Scanner: {lex_texts} texts (all texts over a 12-character alphabet up to length {4 if ctx.tier == 'quick' else 5} and {len(lexcheck.PROBES)} probe texts) scanned by "
+             "spec/Lexer.tla (invariants Covers, Maximal, Progress) and by nsl/lexer.py, compared token for token (type, text, offset, line) and in the illegal characters reported. "
+             "distinct_nontrivial = multi-line ranges + layouts.",
         samples=samples, exhaustive=True, traces_validated=len(cases),
         assumptions=["the range reported for a redeclared variable may be its identifier or the identifier together with its initialiser (both designate the declaration)",
                      "the located parts of a construct are its identifiers and literals (keywords and punctuation carry no position)"],
